@@ -69,10 +69,12 @@ def handleTree (j : Json) : R Json := do
     | some s => s != me.ctime
     | none => false
   let listed : Bool := (lookOf t0 pid).isSome
+  -- the incarnation the object was built for no longer owns the PID, or the object knows it is dead
+  let dead : Bool := me.gone || me.reused || (lookOf t0 pid != some me.ctime)
   let links := ppidMap t0
   let look := lookOf t1
   let flags := jObj [("pre_gone", Json.bool me.gone), ("pre_reused", Json.bool me.reused),
-    ("recycled", Json.bool recycled), ("listed", Json.bool listed),
+    ("recycled", Json.bool recycled), ("listed", Json.bool listed), ("dead", Json.bool dead),
     ("min_pid", jOpt jNat (minPid? t0))]
   let jrun := jOpt Json.bool running
   let nspJ := jExc "NoSuchProcess" (some pid)
@@ -81,7 +83,7 @@ def handleTree (j : Json) : R Json := do
     let m := (children cfg me recursive (lookOf t0) links look).2
     let sat := Spec.descSat links look me.ctime pid
     let isClosed := Spec.closed links look me.ctime pid sat
-    let sp := if recycled then nspJ
+    let sp := if dead then nspJ
       else if recursive then jObj (("kind", "ok") :: jPids (Spec.descList links look me.ctime pid))
       else jObj (("kind", "ok") :: jPids (Spec.childList links look me.ctime pid))
     return jObj [("model", jOut jPids m), ("spec", sp), ("running", jrun), ("flags", flags),
@@ -89,13 +91,13 @@ def handleTree (j : Json) : R Json := do
   else if call == "parent" then
     let m := (parent cfg ps t0 me).2.2
     let sp := if Spec.isRoot t0 pid then jObj (("kind", "ok") :: jParent none)
-      else if recycled || !listed then nspJ
+      else if dead then nspJ
       else jObj (("kind", "ok") :: jParent (Spec.parentOf t0 pid me.ctime))
     return jObj [("model", jOut jParent m), ("spec", sp), ("running", jrun), ("flags", flags), ("closed", Json.bool true)]
   else if call == "parents" then
     let m := (parents cfg ps t0 me).2
     let sp := if Spec.isRoot t0 pid then jObj (("kind", "ok") :: jChain [])
-      else if recycled || !listed then nspJ
+      else if dead then nspJ
       else jObj (("kind", "ok") :: jChain (Spec.chainList t0 (t0.length + 1) [pid] pid me.ctime))
     return jObj [("model", jOut jChain m), ("spec", sp), ("running", jrun), ("flags", flags), ("closed", Json.bool true)]
   else .error s!"unknown call {call}"
